@@ -45,6 +45,7 @@ FEATS_ALL = [
     {"intrange", "floatrange", "strsize", "interval", "intlist", "floatlist", "weightedstr", "sizedlist"},
     {"intrange", "dependent", "sizedlist", "varrange"},
     {"intrange", "plainlist", "bool", "union"},
+    {"intrange", "nested", "sizedlist", "union"},
 ]
 
 
@@ -125,6 +126,22 @@ def workload(ctx, R, d, kinds, reps, n_create, n_var):
                         for x in c:
                             ctx.produced("crossover", "tree", kind, d, x)
                             genos.append(x)
+                        if ctx.meta:
+                            # the parents are still programs of the population: their labels must still be right
+                            ctx.produced("parent-after-crossover", "tree", kind, d, a)
+                            ctx.produced("parent-after-crossover", "tree", kind, d, b)
+            if ctx.prop == "C03" and genos:
+                # one lineage: each mutation starts from the previous result
+                m = genos[0]
+                for _ in range(6):
+                    m = ctx.attempt("mutate-lineage", "tree", kind, d, lambda: rep.mutate(src, m), src)
+                    if m is None:
+                        break
+                    x = ctx.attempt("crossover-lineage", "tree", kind, d, lambda: rep.crossover(src, m, genos[0]), src,
+                                    project=False)
+                    if x is not None:
+                        ctx.produced("crossover-lineage", "tree", kind, d, x[0])
+                        m = x[0]
         for rname, mk in (("ge", lambda: GrammaticalEvolutionRepresentation(ctx.g, dec, gene_length=48)),
                           ("sge", lambda: StructuredGrammaticalEvolutionRepresentation(ctx.g, dec, gene_length=24))):
             if rname not in reps:
@@ -246,6 +263,13 @@ def run_grammar(spec, prop, R, tier, batch, stats):
                 if d >= 0:
                     workload(ctx, R, d, ["grow", "pigrow", "pt"], ["tree", "ge", "dsge", "stack"], 2, 2)
                 ctx.snapshot_grammar()
+            # grammar-level operations of the library itself must not disturb the grammar object either
+            try:
+                ctx.g.usable_grammar()
+                ctx.g.get_grammar_properties_summary()
+            except Exception:
+                pass
+            ctx.snapshot_grammar()
         else:
             d = mind + 2
             workload(ctx, R, d, ["grow", "full", "pigrow", "pt"], ["tree", "ge", "sge", "dsge", "stack"],
@@ -254,6 +278,41 @@ def run_grammar(spec, prop, R, tier, batch, stats):
                 validate_events(ctx, R)
         cfg = {"k": "syn", "g": ctx.decl, "impl0": ctx.impl0, "feats": spec.get("feats", [])}
         batch.trace(spec["id"], ctx.events, cfg)
+        stats["events"] += len(ctx.events)
+    finally:
+        b.dispose()
+
+
+def redeclare_scenario(spec, prop, R, batch, stats):
+    """the documented idiom: re-declare a refinement on an already used class, extract again, generate"""
+    from geneticengine.grammar.metahandlers.ints import IntRange
+    from typing import Annotated
+    if "Dep" in repr(spec["classes"]):
+        return      # re-declaring a field another refinement depends on would make that refinement meaningless
+    b = GR.build(spec)
+    try:
+        target = None
+        for cls in b.classes.values():
+            for fname, ty in fields_of(cls):
+                if hasattr(ty, "__metadata__") and type(ty.__metadata__[0]).__name__ == "IntRange" and ty.__origin__ is int:
+                    target = (cls, fname)
+                    break
+            if target:
+                break
+        if target is None:
+            return
+        try:
+            ctx0 = Ctx(b, prop)
+            workload(ctx0, R, ctx0.mind + 1, ["grow"], ["tree", "ge"], 2, 1)     # first use of the classes
+        except Exception:
+            return
+        cls, fname = target
+        lo = R.randint(100, 120)
+        cls.__init__.__annotations__[fname] = Annotated[int, IntRange(lo, lo + 3)]
+        ctx = Ctx(b, prop, meta=(prop == "C11"))                                   # extract again: new declaration
+        workload(ctx, R, ctx.mind + 1, ["grow", "pt"], ["tree", "ge", "sge", "dsge"], 2, 2)
+        batch.trace("redeclared/" + spec["id"], ctx.events,
+                    {"k": "syn", "g": ctx.decl, "impl0": ctx.impl0, "feats": spec.get("feats", [])})
         stats["events"] += len(ctx.events)
     finally:
         b.dispose()
@@ -277,6 +336,9 @@ def main():
     specs += GR.family(R, n, FEATS_ALL)
     for spec in specs:
         run_grammar(spec, a.prop, R, a.tier, batch, stats)
+    if a.prop in ("C01", "C02"):
+        for spec in [x for x in specs if "source" not in x][: (14 if a.tier == "quick" else 120)]:
+            redeclare_scenario(spec, a.prop, R, batch, stats)
     batch.traces = finalize(batch.traces)
     paths = batch.shards(a.out, a.shards)
     write_summary(a.out, {"batches": paths, "traces": len(batch.traces), "events": stats["events"]})
